@@ -492,6 +492,109 @@ func (tc *treeCase) genPool(rootP *parsed) ([]*poolCh, []string) {
 	return pool, goodHeads
 }
 
+// directedMerge: MERGE changes (two or three parents) whose parents cite ACL records on both sides
+// of the record the merge itself cites — the monotonicity clause quantifies over ALL parents,
+// whatever their order by id. The author can write at the cited record (preferably an account that
+// lost the permission later), so only the ACL-head order decides.
+func (tc *treeCase) directedMerge(deliver func([]*rawCh, string)) {
+	r, w := tc.r, tc.w
+	type cand struct {
+		id  string
+		idx int
+	}
+	collect := func() []cand {
+		var cs []cand
+		for _, id := range sortedKeys(tc.attached) {
+			p := tc.attached[id]
+			if p.isRoot && p.derived {
+				continue
+			}
+			if i := w.recIndex(p.aclHead, tc.recvK); i >= 0 {
+				cs = append(cs, cand{id, i})
+			}
+		}
+		return cs
+	}
+	writerAt := func(i int, notAt int) *acct {
+		var any *acct
+		for _, a := range w.accts {
+			if a.keys == nil || !oracleCanWrite(w.permAt(i, a.idx)) {
+				continue
+			}
+			if notAt >= 0 && !oracleCanWrite(w.permAt(notAt, a.idx)) {
+				return a // could write at the older record, cannot at the newer one: the demoted / removed writer
+			}
+			any = a
+		}
+		return any
+	}
+	cs := collect()
+	distinct := func() bool {
+		for _, c := range cs {
+			if c.idx != cs[0].idx {
+				return true
+			}
+		}
+		return false
+	}
+	if len(cs) > 0 && !distinct() && tc.recvK > 1 {
+		// every attached change cites the same record: grow a branch that cites a later one
+		hi := cs[0].idx
+		if hi+1 < tc.recvK {
+			j := hi + 1 + r.Intn(tc.recvK-hi-1)
+			if a := writerAt(j, -1); a != nil {
+				deliver([]*rawCh{tc.buildChange(a, w.recs[j].Id, tc.tree.Heads(), tc.rootId)}, "merge.grow-branch")
+				cs = collect()
+			}
+		}
+	}
+	if len(cs) < 2 || !distinct() || tc.dead {
+		return
+	}
+	for tries := 0; tries < 2 && r.TimeLeft(); tries++ {
+		a, b := cs[r.Intn(len(cs))], cs[r.Intn(len(cs))]
+		if a.idx == b.idx {
+			continue
+		}
+		if a.idx > b.idx {
+			a, b = b, a
+		}
+		author := writerAt(a.idx, b.idx)
+		if author == nil {
+			continue
+		}
+		prev := []string{a.id, b.id}
+		if r.Chance(30) && len(cs) > 2 {
+			prev = append(prev, cs[r.Intn(len(cs))].id)
+		}
+		if r.Chance(50) {
+			prev[0], prev[1] = prev[1], prev[0]
+		}
+		order := "older-parent-first"
+		if a.id > b.id {
+			order = "newer-parent-first"
+		}
+		r.Count("directed.merge." + order)
+		// cites the OLDER parent's record: one parent cites the same record, another a later one
+		m1 := tc.buildChange(author, w.recs[a.idx].Id, prev, tc.rootId)
+		m1.label = "valid.merge-cites-older-parents-record"
+		deliver([]*rawCh{m1}, "merge.cites-older")
+		// cites a record strictly between the two
+		if b.idx-a.idx > 1 {
+			if au := writerAt(a.idx+1, -1); au != nil {
+				m := tc.buildChange(au, w.recs[a.idx+1+r.Intn(b.idx-a.idx-1)].Id, prev, tc.rootId)
+				m.label = "valid.merge-cites-between"
+				deliver([]*rawCh{m}, "merge.cites-between")
+			}
+		}
+		// cites the newer parent's record: fine if the author can (still) write there
+		if au := writerAt(b.idx, -1); au != nil && r.Chance(60) {
+			deliver([]*rawCh{tc.buildChange(au, w.recs[b.idx].Id, prev, tc.rootId)}, "merge.cites-newer")
+			cs = collect()
+		}
+	}
+}
+
 // runCase: one receiver, one tree, a pool of really-signed changes, batches with mutants.
 func runCase(h *harnessState, w *world, caseNo int) {
 	defer timed("runCase")()
@@ -737,6 +840,9 @@ func runCase(h *harnessState, w *world, caseNo int) {
 			batch = append(batch, c.raw)
 		}
 		deliver(batch, "redeliver-all")
+	}
+	if !tc.keyFilter && !tc.dead && r.Chance(50) && r.TimeLeft() {
+		tc.directedMerge(deliver)
 	}
 	if tc.exotic && r.Chance(40) && r.TimeLeft() {
 		// directed at the rebuild path: a change WITHOUT previous ids (attached vacuously, not reachable
